@@ -19,7 +19,7 @@ struct RecSession : Session
 
 // a framed message with an arbitrary body of exactly 'blen' bytes (BodyLength = blen); the body contains look-alikes of
 // the framing fields inside values
-std::string framed(unsigned blen, unsigned cid)
+std::string framed(unsigned blen, unsigned cid, unsigned pad = 0)   // pad: BodyLength written with leading zeros to this many digits (legal for a FIX int)
 {
 	sim::Rng r(cid * 7919ull + blen);
 	std::string body = "35=D" + std::string(1, SOH) + "34=" + std::to_string(cid) + SOH;
@@ -28,7 +28,8 @@ std::string framed(unsigned blen, unsigned cid)
 	if (body.size() > blen) body = body.substr(0, blen - 1) + SOH;
 	while (body.size() < blen) { if (body.size() + 1 == blen) body += SOH; else if (body.back() == SOH) body += "1="; else body += 'z'; }
 	if (body.size() >= 2 && body[body.size() - 1] != SOH) body[body.size() - 1] = SOH;
-	std::string m = std::string("8=FIX.4.2") + SOH + "9=" + std::to_string(body.size()) + SOH + body;
+	std::string len = std::to_string(body.size()); if (pad > len.size()) len = std::string(pad - len.size(), '0') + len;
+	std::string m = std::string("8=FIX.4.2") + SOH + "9=" + len + SOH + body;
 	unsigned sum = 0; for (unsigned char c : m) sum += c;
 	char cs[8]; snprintf(cs, sizeof cs, "%03u", sum % 256);
 	return m + "10=" + cs + SOH;
@@ -81,7 +82,7 @@ struct C15 : drv::Harness
 		{
 			int x = (int)rng.below(100);
 			int64_t blen = x < 50 ? rng.range(12, 80) : x < 80 ? rng.range(80, 900) : x < 92 ? rng.range(900, 8000) : rng.pick(std::vector<int64_t>{ 12, 13, 8170, 8171, 8172 });
-			p.ops.push_back(Op("msg", { blen, (int64_t)++cid }));
+			p.ops.push_back(Op("msg", { blen, (int64_t)++cid, blen <= 8000 && rng.chance(0.1) ? rng.pick(std::vector<int64_t>{ 5, 6, 7, 9 }) : 0 }));
 		}
 		int fam = (int)rng.below(10);
 		if (fam < 4)
@@ -113,7 +114,7 @@ struct C15 : drv::Harness
 		std::vector<std::string> msgs; std::string stream; int bad_at = -1; std::vector<size_t> ends; long eof_pm = -1;
 		for (auto& op : p.ops)
 		{
-			if (op.k == "msg") { msgs.push_back(framed((unsigned)op.arg(0), (unsigned)op.arg(1))); stream += msgs.back(); ends.push_back(stream.size()); }
+			if (op.k == "msg") { msgs.push_back(framed((unsigned)op.arg(0), (unsigned)op.arg(1), (unsigned)op.arg(2))); if (op.arg(2)) sim::count("bodylength_zero_padded"); stream += msgs.back(); ends.push_back(stream.size()); }
 			else if (op.k == "bad" && bad_at < 0) { bad_at = (int)msgs.size(); stream += corrupt((int)op.arg(0), (unsigned)op.arg(1)); sim::count(("corrupt_kind_" + std::to_string(op.arg(0))).c_str()); }
 			else if (op.k == "eof") eof_pm = op.arg(0);
 		}
